@@ -92,7 +92,12 @@ func (r Resources) ContainsBucketPattern() bool {
 // Bucket resources should start with bucket name: arn:aws:s3:::MyBucket/*
 func (r Resources) Validate(bucket string) error {
 	for resource := range r {
-		if !strings.HasPrefix(resource, bucket) {
+		rest, ok := strings.CutPrefix(resource, bucket)
+		if !ok {
+			return policyErrInvalidResource
+		}
+		// the bucket name must end here: "bucketX/*" is not a resource of "bucket"
+		if rest != "" && rest[0] != '/' && rest[0] != '*' && rest[0] != '?' {
 			return policyErrInvalidResource
 		}
 	}
